@@ -41,28 +41,28 @@ type closeEv struct {
 }
 
 type request struct {
-	tag      string
-	id       uint32
-	t0       time.Time // before Send
-	ended    time.Time // zero while outstanding
-	endWhy   string
-	ctx      int
-	first    []byte
+	tag    string
+	id     uint32
+	t0     time.Time // before Send
+	ended  time.Time // zero while outstanding
+	endWhy string
+	ctx    int
+	first  []byte
 }
 
 type sim struct {
-	t      *rapid.T
-	R      time.Duration
-	sock   mangos.Socket
-	ep     *vt.Endpoint
-	ev     *fixture.Events
-	all    []*vt.Pipe // every pipe ever attached
-	live   []*vt.Pipe
-	closes []closeEv
+	t              *rapid.T
+	R              time.Duration
+	sock           mangos.Socket
+	ep             *vt.Endpoint
+	ev             *fixture.Events
+	all            []*vt.Pipe // every pipe ever attached
+	live           []*vt.Pipe
+	closes         []closeEv
 	maybeSwallowed map[*vt.Pipe]bool
-	trace  []string
-	faults int
-	canon  string
+	trace          []string
+	faults         int
+	canon          string
 }
 
 func (s *sim) logf(f string, a ...interface{}) { s.trace = append(s.trace, fmt.Sprintf(f, a...)) }
